@@ -1,6 +1,7 @@
 pub mod c01;
 pub mod c02;
 pub mod c03;
+pub mod c06;
 pub mod c07;
 pub mod c10;
 pub mod c11;
@@ -19,6 +20,7 @@ pub fn run(id: &str, tier: Tier) -> Option<i32> {
         "C01" => c01::run(tier),
         "C02" => c02::run(tier),
         "C03" => c03::run(tier),
+        "C06" => c06::run(tier),
         "C07" => c07::run(tier),
         "C10" => c10::run(tier),
         "C11" => c11::run(tier),
@@ -71,6 +73,7 @@ pub fn replay(property: &str, part: &str, case: &serde_json::Value) -> Option<Re
         ("C14", "adversarial-names") => replay_part(&c14::Adversarial, case, 1),
         ("C14", "verifier-names") => replay_part(&c14::VerifierNames, case, 1),
         ("C10", "admission-history") => replay_part(&c10::Histories, case, 1),
+        ("C06", "hostile-scripts") => replay_part(&c06::Scripts, case, 1),
         _ => return None,
     })
 }
